@@ -1,6 +1,9 @@
 package c10
 
 import (
+	"crypto/x509/pkix"
+	"encoding/asn1"
+	"encoding/pem"
 	"fmt"
 	"image"
 	"io/fs"
@@ -86,9 +89,9 @@ var registry = map[string]named{
 	"c10types.Wrap": {RT: reflect.TypeOf(c10types.Wrap{}), Under: structT(
 		fld("B", nm("c10types.Box")), fld("U", nm("url.Values")), fld("Q", ptrT(nm("image.Point"))))},
 	// a second package called c10types (not used by the C10 stream: its generated programs do not contain it)
-	"c10alt.Tag":  {RT: reflect.TypeOf(c10alt.Tag{}), Under: structT(fld("N", sc("int")), fld("S", sc("string")))},
-	"c10alt.Unit": {RT: reflect.TypeOf(c10alt.Unit(0)), Under: sc("int")},
-	"c10alt.Frame": {RT: reflect.TypeOf(c10alt.Frame{}), Under: structT(fld("R", nm("image.Rectangle")), fld("N", sc("int")))},
+	"c10alt.Tag":      {RT: reflect.TypeOf(c10alt.Tag{}), Under: structT(fld("N", sc("int")), fld("S", sc("string")))},
+	"c10alt.Unit":     {RT: reflect.TypeOf(c10alt.Unit(0)), Under: sc("int")},
+	"c10alt.Frame":    {RT: reflect.TypeOf(c10alt.Frame{}), Under: structT(fld("R", nm("image.Rectangle")), fld("N", sc("int")))},
 	"image.Rectangle": {RT: reflect.TypeOf(image.Rectangle{}), Under: structT(fld("Min", nm("image.Point")), fld("Max", nm("image.Point")))},
 	// types from other packages
 	"time.Duration": {RT: reflect.TypeOf(time.Duration(0)), Under: sc("int64")},
@@ -98,6 +101,25 @@ var registry = map[string]named{
 	"net.IP":        {RT: reflect.TypeOf(net.IP(nil)), Under: sliceT(sc("uint8"))},
 	"url.Values":    {RT: reflect.TypeOf(url.Values(nil)), Under: mapT(sc("string"), sliceT(sc("string")))},
 	"reflect.Kind":  {RT: reflect.TypeOf(reflect.Kind(0)), Under: sc("uint")},
+	// struct types of other packages that hold slices / maps / further such structs, and own-package types with fields of them
+	"asn1.ObjectIdentifier": {RT: reflect.TypeOf(asn1.ObjectIdentifier(nil)), Under: sliceT(sc("int"))},
+	"asn1.RawValue": {RT: reflect.TypeOf(asn1.RawValue{}), Under: structT(fld("Class", sc("int")), fld("Tag", sc("int")),
+		fld("IsCompound", sc("bool")), fld("Bytes", sliceT(sc("uint8"))), fld("FullBytes", sliceT(sc("uint8"))))},
+	"asn1.BitString": {RT: reflect.TypeOf(asn1.BitString{}), Under: structT(fld("Bytes", sliceT(sc("uint8"))), fld("BitLength", sc("int")))},
+	"pkix.AlgorithmIdentifier": {RT: reflect.TypeOf(pkix.AlgorithmIdentifier{}), Under: structT(
+		fld("Algorithm", nm("asn1.ObjectIdentifier")), fld("Parameters", nm("asn1.RawValue")))},
+	"pkix.Extension": {RT: reflect.TypeOf(pkix.Extension{}), Under: structT(
+		fld("Id", nm("asn1.ObjectIdentifier")), fld("Critical", sc("bool")), fld("Value", sliceT(sc("uint8"))))},
+	"pem.Block": {RT: reflect.TypeOf(pem.Block{}), Under: structT(
+		fld("Type", sc("string")), fld("Headers", mapT(sc("string"), sc("string"))), fld("Bytes", sliceT(sc("uint8"))))},
+	"net.IPMask": {RT: reflect.TypeOf(net.IPMask(nil)), Under: sliceT(sc("uint8"))},
+	"net.IPNet":  {RT: reflect.TypeOf(net.IPNet{}), Under: structT(fld("IP", nm("net.IP")), fld("Mask", nm("net.IPMask")))},
+	"c10types.Sealed": {RT: reflect.TypeOf(c10types.Sealed{}), Under: structT(
+		fld("Alg", nm("pkix.AlgorithmIdentifier")), fld("Sig", nm("asn1.BitString")), fld("Blk", nm("pem.Block")),
+		fld("Net", nm("net.IPNet")), fld("N", sc("int")))},
+	"c10types.Vault": {RT: reflect.TypeOf(c10types.Vault{}), Under: structT(
+		fld("S", nm("c10types.Sealed")), fld("Exts", sliceT(nm("pkix.Extension"))), fld("ByName", mapT(sc("string"), nm("pem.Block"))),
+		fld("Raw", ptrT(nm("asn1.RawValue"))), fld("Name", sc("string")))},
 	// outside the domain
 	"c10types.Hidden": {RT: reflect.TypeOf(c10types.Hidden{}), Under: structT(fld("A", sc("int"))), OOD: true},
 }
